@@ -1,5 +1,12 @@
 package main
 
+func tOf(tier string, q, th int64) int64 {
+	if tier == "thorough" {
+		return th
+	}
+	return q
+}
+
 func seqArgs(n int, rest ...int64) [][]int64 {
 	var out [][]int64
 	for i := 0; i < n; i++ {
@@ -27,7 +34,7 @@ var libOverlay = func(files ...string) map[string][]string {
 
 func init() {
 	properties["C01"] = &PropertySpec{ID: "C01",
-		Rule:        "shapes: every atom kind alone, every combinator over literal atoms, global-pattern programs (list in harness/C01/c01.go); text: all ASCII strings of length 0..T (quick T=3, thorough T=5); literal bytes symbolic (printable ASCII) in the symbolic-literal group",
+		Rule:        "shapes: every atom kind alone, every combinator over literal atoms, global-pattern programs (list in harness/C01/c01.go), plus the generated family F2 = 10 quantifier forms x 10 quantifier forms x 9 structural positions (nested, sequence-in-loop, alternation-in-loop, adjacent loops, capture+back-reference under loops, inline subroutine called twice, global pattern referenced twice, subroutine / global pattern called inside every loop form) = 900 programs; jump-target well-formedness of the generated code (calls target the StartSubroutine of their name, loop starts/stops pair up, subroutine ids equal their pc, branch/jump/not-in targets in range) for every program of all families plus 18 programs with counted loops of 2..4 copies around calls, alternations and lists (independent of the text bound); text: all ASCII strings of length 0..T (quick T=3, thorough T=5); literal bytes symbolic (printable ASCII) in the symbolic-literal group",
 		Assumptions: []string{"ASCII text", "loop ids returned by math/rand.Int63 are pairwise distinct", "programs on which the property statement is silent (empty literals, empty/unbound back-references, named loops, whole file/line/word) are assumed away"},
 		Groups: []JobGroup{
 			{Name: "c01-concrete-literals", Overlay: libOverlay("C01/c01.go"), Pkg: "libvore", Entry: "VerifC01",
@@ -46,17 +53,19 @@ func init() {
 					}
 					return seqArgs(countOf(l, "libvore", "VerifC01Count"), T, 3, 0)
 				}},
+			{Name: "c01-generated", Overlay: libOverlay("C01/c01.go"), Pkg: "libvore", Entry: "VerifC01Gen", PanicOK: true,
+				Args: func(tier string, l *Loaded) [][]int64 {
+					return seqArgs(countOf(l, "libvore", "VerifC01GenCount"), tOf(tier, 3, 4), 0)
+				}},
+			{Name: "c01-wellformed", Overlay: libOverlay("C01/c01.go", "C01/wellformed.go"), Pkg: "libvore", Entry: "VerifC01WellFormed", PanicOK: true,
+				Args: func(tier string, l *Loaded) [][]int64 {
+					return seqArgs(countOf(l, "libvore", "VerifC01WellFormedCount"))
+				}},
 			{Name: "c01-twin", Overlay: libOverlay("C01/c01.go"), Pkg: "libvore", Entry: "VerifC01", Twin: true,
 				Args: func(tier string, l *Loaded) [][]int64 { return [][]int64{{0, 2, 0, 1}} }},
 		}}
-	tOf := func(tier string, q, th int64) int64 {
-		if tier == "thorough" {
-			return th
-		}
-		return q
-	}
 	properties["C02"] = &PropertySpec{ID: "C02",
-		Rule:        "capture-bearing shapes (captures under alternation, optional/repeated groups, subroutine calls, followed by constructs that can fail; back-references) x all ASCII texts of length 0..T (quick 3, thorough 5); literal bytes symbolic in the second group",
+		Rule:        "capture-bearing shapes (captures under alternation, optional/repeated groups, subroutine calls, followed by constructs that can fail; back-references) x all ASCII texts of length 0..T (quick 3, thorough 5); literal bytes symbolic in the second group; 9 shapes with captures around recursive calls / sibling captures with inner choice points at T = 4 (thorough 5)",
 		Assumptions: []string{"ASCII text", "distinct loop ids", "unbound or empty back-references are assumed away (statement silent / C09)"},
 		Groups: []JobGroup{
 			{Name: "c02", Overlay: libOverlay("C02/c02.go"), Pkg: "libvore", Entry: "VerifC02", PanicOK: true,
@@ -67,11 +76,15 @@ func init() {
 				Args: func(tier string, l *Loaded) [][]int64 {
 					return seqArgs(countOf(l, "libvore", "VerifC02Count"), tOf(tier, 3, 4), 3, 0)
 				}},
+			{Name: "c02-deep", Overlay: libOverlay("C02/c02.go"), Pkg: "libvore", Entry: "VerifC02Deep", PanicOK: true,
+				Args: func(tier string, l *Loaded) [][]int64 {
+					return seqArgs(countOf(l, "libvore", "VerifC02DeepCount"), tOf(tier, 4, 5))
+				}},
 			{Name: "c02-twin", Overlay: libOverlay("C02/c02.go"), Pkg: "libvore", Entry: "VerifC02", Twin: true, PanicOK: true,
 				Args: func(tier string, l *Loaded) [][]int64 { return [][]int64{{0, 2, 0, 1}} }},
 		}}
 	properties["C03"] = &PropertySpec{ID: "C03",
-		Rule:        "shapes incl. whole line/file/word, regex literals, named loops, replace, multi-command (harness/C03/c03.go) x texts of length 0..T: ASCII with column claim (quick 3, thorough 5) and all 256 byte values without column claim (quick 3, thorough 4)",
+		Rule:        "shapes incl. whole line/file/word, regex literals, named loops, replace, multi-command (harness/C03/c03.go) x texts of length 0..T: ASCII with column claim (quick 3, thorough 5) and all 256 byte values without column claim (quick 3, thorough 4); 10 skip/take/last shapes with multi-byte matches at T = 4 (thorough 5)",
 		Assumptions: []string{"column claim for ASCII inputs only (as the property states)"},
 		Groups: []JobGroup{
 			{Name: "c03-ascii", Overlay: libOverlay("C03/c03.go"), Pkg: "libvore", Entry: "VerifC03", PanicOK: true,
@@ -81,6 +94,10 @@ func init() {
 			{Name: "c03-bytes", Overlay: libOverlay("C03/c03.go"), Pkg: "libvore", Entry: "VerifC03", PanicOK: true,
 				Args: func(tier string, l *Loaded) [][]int64 {
 					return seqArgs(countOf(l, "libvore", "VerifC03Count"), tOf(tier, 3, 4), 0, 0)
+				}},
+			{Name: "c03-skip", Overlay: libOverlay("C03/c03.go"), Pkg: "libvore", Entry: "VerifC03Skip", PanicOK: true,
+				Args: func(tier string, l *Loaded) [][]int64 {
+					return seqArgs(countOf(l, "libvore", "VerifC03SkipCount"), tOf(tier, 4, 5))
 				}},
 			{Name: "c03-twin", Overlay: libOverlay("C03/c03.go"), Pkg: "libvore", Entry: "VerifC03", Twin: true, PanicOK: true,
 				Args: func(tier string, l *Loaded) [][]int64 { return [][]int64{{2, 2, 1, 1}} }},
